@@ -17,7 +17,9 @@ def c07(tier, seed, dst, facts):
     per_node = [2, 6, 11, 15, 16, 20, 24]
 
     # ---------------------------------------------------------------- feature alphas: [αF] > [αF] on the same segment
-    shapes = [(f, False) for f in ([15, 20, 11, 24] if tier == "quick" else range(n))] + [(f, True) for f in ([16] if tier == "quick" else per_node)]
+    # quick: one plain and one inverted shape per run, rotating with VERIF_SEED; the inverted one always on a feature of a
+    # place sub-node (that is where "absent sub-node matches neither" and -α interact)
+    shapes = [(f, False) for f in ([[15, 20, 11, 24, 2, 6][seed % 6]] if tier == "quick" else range(n))] + [(f, True) for f in ([[16, 20, 15, 24][seed % 4]] if tier == "quick" else per_node)]
     for (f, inv_) in shapes:
         nm = "c07_feat_alpha_roundtrip_%02d%s" % (f, "_inv" if inv_ else "")
         ctor = "InvAlpha" if inv_ else "Alpha"
@@ -29,7 +31,7 @@ fn @name@() {
     let (nd, mask) = FType::from_usize(@f@).to_node_mask();
     let kind = ModKind::Alpha(AlphaMod::@ctor@('α'));
     let r = sub.match_seg_kind(&kind, s, nd, mask);
-    let mut m = Modifiers::new();
+    let mut m = mods_new();
     m.feats[@f@] = Some(kind);
     let mut t = s;
     let r2 = t.apply_seg_mods(&sub.alphas, m.nodes, m.feats, P, false);
@@ -52,7 +54,7 @@ fn @name@() {
             symbolic="all bundles (2^40)", shape="[%s%s] > [%s%s]" % ("-α" if inv_ else "α", fname(f), "-α" if inv_ else "α", fname(f)), unwind=unwind, unwindset=UNWINDSET, stubs=STUBS, cap_s=2400, weight=5))
 
     # ---------------------------------------------------------------- node alphas
-    for ni in ([3, 6, 1] if tier == "quick" else range(8)):
+    for ni in ([[3, 6, 1, 4][seed % 4]] if tier == "quick" else range(8)):
         nd = G.NODES[ni]
         nm = "c07_node_alpha_roundtrip_%s" % nd.lower()
         hs.append(G.H(nm, "node-alpha-roundtrip", "subrule", G.T(HDR + """
@@ -62,7 +64,7 @@ fn @name@() {
     let sub = mk_sub(RuleType::Substitution);
     let kind = ModKind::Alpha(AlphaMod::Alpha('α'));
     match sub.match_node(s, NodeKind::@nd@, &kind, P) { Ok(v) => assert!(v, "role=first-use-of-node-alpha-matches"), Err(_) => assert!(false, "role=unexpected-error") }
-    let mut m = Modifiers::new();
+    let mut m = mods_new();
     m.nodes[@ni@] = Some(kind);
     let mut t = s;
     let r2 = t.apply_seg_mods(&sub.alphas, m.nodes, m.feats, P, false);
@@ -77,7 +79,7 @@ fn @name@() {
             symbolic="all bundles", shape="[α%s] > [α%s]" % (nd.upper(), nd.upper()), unwind=unwind, unwindset=UNWINDSET, stubs=STUBS, cap_s=2400, weight=5))
 
     # ---------------------------------------------------------------- suprasegmental alphas: stress
-    stress_shapes = [("stress", "[Some(k), None]", False), ("stress_inv", "[Some(k), None]", True), ("secstress", "[None, Some(k)]", False)]
+    stress_shapes = [("stress", "[Some(k), None]", False), ("stress_inv", "[Some(k), None]", True), ("secstress", "[None, Some(k)]", False), ("secstress_inv", "[None, Some(k)]", True)]
     for (tag, arr, inv_) in stress_shapes:
         nm = "c07_supra_alpha_roundtrip_" + tag
         hs.append(G.H(nm, "supra-alpha-roundtrip", "subrule", G.T(HDR + """
@@ -91,9 +93,9 @@ fn @name@() {
     match sub.match_stress(&arr, &sy) { Ok(v) => assert!(v, "role=first-use-of-supra-alpha-matches"), Err(_) => assert!(false, "role=unexpected-error") }
     let r = sy.apply_syll_mods(&sub.alphas, &SupraSegs { stress: arr, length: [None, None], tone: None }, P);
     assert!(r.is_ok(), "role=unexpected-error");
-    if st == StressKind::Secondary { assert!(sy.stress == st, "role=stress-alpha-roundtrip-secondary"); }
-    else if st == StressKind::Primary { assert!(sy.stress == st, "role=stress-alpha-roundtrip-primary"); }
-    else { assert!(sy.stress == st, "role=stress-alpha-roundtrip-unstressed"); }
+    if st == StressKind::Secondary { assert!(sy.stress == st, "role=@what@-alpha-roundtrip-secondary"); }
+    else if st == StressKind::Primary { assert!(sy.stress == st, "role=@what@-alpha-roundtrip-primary"); }
+    else { assert!(sy.stress == st, "role=@what@-alpha-roundtrip-unstressed"); }
     assert!(sy.tone == tone && sy.segments.len() == 1, "role=supra-alpha-frame");
     kani::cover!(st == StressKind::Primary);
     kani::cover!(st == StressKind::Unstressed);
@@ -109,7 +111,7 @@ fn @name@() {
     # of apply_supras are explored on the VecDeque and merged. What is decided instead is the capture: the real matcher
     # binds exactly the boolean that the same modifier, used as a binary one, would need in order to reproduce the length
     # (the write-back of a *binary* length modifier is C05's set-length family).
-    len_shapes = [(2, "overlong", False), (2, "long", False), (3, "overlong", True), (1, "long", True)] if tier == "quick" else [(L, tag, iv) for L in (1, 2, 3) for tag in ("long", "overlong") for iv in (False, True)]
+    len_shapes = [[(2, "overlong", False), (1, "long", True)], [(2, "long", False), (3, "overlong", True)]][seed % 2] if tier == "quick" else [(L, tag, iv) for L in (1, 2, 3) for tag in ("long", "overlong") for iv in (False, True)]
     for (L, tag, iv) in len_shapes:
         nm = "c07_supra_alpha_capture_%s_%d%s" % (tag, L, "_inv" if iv else "")
         segs = ", ".join(["x"] + ["a"] * L + ["y"])
@@ -143,7 +145,7 @@ fn c07_var_capture_context() {
     kani::assume(a != x);
     let w = word1(syll_of(&[x, a], any_stress(), kani::any()));
     let sub = mk_sub(RuleType::Substitution);
-    let m = Modifiers::new();
+    let m = mods_new();
     let mut pos = SegPos::new(0, 1);
     let r = sub.context_match_matrix(&m, &Some(1), &w, &mut pos, P);
     match r { Ok(v) => assert!(v, "role=empty-matrix-matches"), Err(_) => assert!(false, "role=unexpected-error") }
@@ -162,7 +164,7 @@ fn c07_var_capture_input() {
     kani::assume(a != x);
     let w = word1(syll_of(&[x, a], any_stress(), kani::any()));
     let sub = mk_sub(RuleType::Substitution);
-    let m = Modifiers::new();
+    let m = mods_new();
     let mut pos = SegPos::new(0, 1);
     let mut caps: Vec<MatchElement> = Vec::new();
     let r = sub.input_match_matrix(&mut caps, &m, &Some(1), &w, &mut pos, P);
@@ -200,7 +202,7 @@ fn c07_var_match_context() {
 
     # ---------------------------------------------------------------- syllable variables: identical syllable only
     HDRS = "#[kani::proof]\n" + G.STUB_RS + "\n#[kani::unwind(8)]"
-    sv_shapes = [(2, 2, True), (2, 3, True), (3, 2, False), (1, 2, True)] if tier == "quick" else [(k, m, f) for k in (1, 2, 3) for m in (1, 2, 3) for f in (True, False)]
+    sv_shapes = [[(2, 2, True), (3, 2, False)], [(2, 3, True), (1, 2, True)]][seed % 2] if tier == "quick" else [(k, m, f) for k in (1, 2, 3) for m in (1, 2, 3) for f in (True, False)]
     for (k, m, fw) in sv_shapes:
         nm = "c07_syllvar_match_context_%d_%d_%s" % (k, m, "fw" if fw else "bw")
         cs = ["c%d" % i for i in range(k)]
@@ -234,7 +236,7 @@ fn @name@() {
             mid=1 if m > 1 else 0, midcheck=('match sub.context_match_syll_var(&captured, &None, &w, &mut pos2, %s) { Ok(v) => assert!(!v, "role=syllable-variable-matches-mid-syllable"), Err(_) => assert!(false, "role=unexpected-error") }' % ("true" if fw else "false")) if m > 1 else "",
             cov="same" if k == m else "true"), shared=[G.SUBRULE_SHARED], functions=["SubRule::context_match_syll_var", "VecDeque<Segment>::eq/clone/reverse", "Word::in_bounds"],
             symbolic="%d + %d bundles, both stresses, both tones" % (k, m), shape="captured syllable of %d, word syllable of %d, %s" % (k, m, "forwards" if fw else "backwards"), unwind=8, stubs=STUBS, weight=3))
-    for (k, m) in ([(2, 2), (2, 3)] if tier == "quick" else [(1, 1), (1, 2), (2, 1), (2, 2), (2, 3), (3, 2), (3, 3)]):
+    for (k, m) in ([[(2, 2)], [(2, 3)]][seed % 2] if tier == "quick" else [(1, 1), (1, 2), (2, 1), (2, 2), (2, 3), (3, 2), (3, 3)]):
         nm = "c07_syllvar_match_input_%d_%d" % (k, m)
         cs = ["c%d" % i for i in range(k)]
         ws = ["w%d" % i for i in range(m)]
@@ -275,8 +277,11 @@ fn c07_twin_reach() {
 }
 """), shared=[G.SUBRULE_SHARED], functions=["SubRule::match_stress"], symbolic="-", shape="assert(false) twin", expect="fail", unwind=unwind, stubs=STUBS))
 
+    if tier == "quick":
+        drop = "c07_var_capture_input" if seed % 2 == 0 else "c07_var_capture_context"
+        hs = [h for h in hs if h["name"] != drop]
     return {
-        "harnesses": hs, "cap_s": 2400, "jobs": 12,
+        "harnesses": hs, "cap_s": 900 if tier == "quick" else 2400, "jobs": 8,
         "bounds": ["unwind %d; hashbrown/SipHash loops bounded to 3 through --unwindset (ids read from this build), unwinding assertions on" % unwind,
                    "feature alphas this run: %d shapes; node alphas: %d; suprasegmental alphas: stress x3 + pair, length shapes; segment variables: capture (context, input) and match" % (len(shapes), 3 if tier == "quick" else 8)],
         "outside": ["write-back of variables in substitution/insertion outputs (`X=1 .. > 1 ..`), capture of syllable variables and structures: inside whole-rule application (SubRule::substitution / insert), which does not finish under CBMC",
